@@ -18,7 +18,8 @@ META = {
     "require": {t: ["class:fact=cols", "class:fact=1col", "class:w=scalar", "class:w=tuple", "class:w=array",
                     "class:w=none", "class:ignore", "class:propagate", "class:xdtype=from_index", "class:xdtype=signed",
                     "class:ndims=0", "class:ndims>=3", "class:xshape=inferred", "class:fact=int",
-                    "class:cols+weights+propagate", "compared:ccube", "compared:xcube", "class:cell_counter_on_boundary"] for t in ("quick", "thorough")},
+                    "class:cols+weights+propagate", "compared:ccube", "compared:xcube", "class:cell_counter_on_boundary", "class:more_than_1024_cells",
+                    "class:argument_objects_shared_between_calls"] for t in ("quick", "thorough")},
     "assumptions": ["tolerance 1e-9*max(1, sum|w*x|) (x20 for means); missing sets compared exactly",
                     "weights are >= 0 and never tiny-positive (< 0.05), so 'weight sum is zero' is unambiguous",
                     "array cube with inferred shape only for N >= 1 (a dense array of zero rows carries no extent)"],
@@ -34,6 +35,12 @@ def shards(tier):
 def cases(ctx):
     rng = ctx.rng
     for i in range(ctx.shard["n"]):
+        if i % 40 == 23:
+            c = aggr.many_cells_case(rng)
+            c["xdtype"] = gen.pick(rng, ["signed", "unsigned", "int64"])
+            c["xshape_inferred"] = bool(rng.random() < 0.3)
+            yield c
+            continue
         if i % 40 == 7:
             c = aggr.counter_boundary_case(rng)
             c["xdtype"] = gen.pick(rng, ["signed", "unsigned", "int64"])
@@ -89,6 +96,12 @@ def judge(ctx, case):
     ctx.count("class:w=" + w["kind"])
     if case.get("boundary_m"):
         ctx.count("class:cell_counter_on_boundary")
+    if case.get("many_cells"):
+        ctx.count("class:more_than_1024_cells")
+    # every second input hands the SAME argument objects to all of its calls (index cube first)
+    shared = {} if n % 2 == 0 else None
+    if shared is not None:
+        ctx.count("class:argument_objects_shared_between_calls")
     ctx.count("class:ignore" if case["ignore_missing"] else "class:propagate")
     ctx.count("class:ndims=%d" % len(dense) if len(dense) < 3 else "class:ndims>=3")
     if f["values"].ndim == 2 and w["kind"] in ("array", "tuple") and not case["ignore_missing"]:
@@ -115,7 +128,7 @@ def judge(ctx, case):
         tol = aggr.tolerance(case, agg)
         for name, cube, cshape in cubes:
             ref_v, ref_m = aggr.reference(case, agg, dense, cshape)
-            res = aggr.call(cube, agg, case, NaN)
+            res = aggr.call(cube, agg, case, NaN, shared)
             ctx.count("compared:" + name.split("[")[0])
             nt = len(dense) >= 1 and missing_rows and bool((~ref_m).any())
             ctx.evaluation({"c": {k: case[k] for k in ("dense", "commons", "shape", "fact", "weights", "ignore_missing")},
